@@ -76,6 +76,26 @@ func harnessDirsFor(prop string) (map[string][]string, error) {
 	return out, err
 }
 
+// modelDirs returns harness dirs that carry symbolic model stubs (files zz_verif_model_*.go); they are
+// overlaid on every run so that the convention stubs (zzstub_*) are present whenever the package is used.
+func modelDirs() []string {
+	var out []string
+	root := filepath.Join(verifRoot, "harness")
+	filepath.Walk(root, func(p string, info os.FileInfo, err error) error {
+		if err == nil && !info.IsDir() && strings.HasPrefix(filepath.Base(p), "zz_verif_model_") {
+			rel, _ := filepath.Rel(root, filepath.Dir(p))
+			for _, o := range out {
+				if o == rel {
+					return nil
+				}
+			}
+			out = append(out, rel)
+		}
+		return nil
+	})
+	return out
+}
+
 // allHarnessNames lists every harness function in dir (any property), for the registry.
 func allHarnessNames(rel string, extra []string) []string {
 	var names []string
@@ -219,7 +239,7 @@ func loadProgram(rels []string, ov map[string]string) (*Loaded, error) {
 // parseCfg reads the //zz: directives on a harness function.
 func parseCfg(fn *ssa.Function, tier string) *HarnessCfg {
 	cfg := &HarnessCfg{Name: fn.Name(), Pkg: fn.Pkg.Pkg.Path(), LoopBound: 64, MaxPaths: 400000, MaxSteps: 5000000,
-		Witnesses: 1, Stubs: map[string]string{}, Merge: map[string]bool{}, Sched: 2, Opts: map[string]string{}, Tier: "both"}
+		Witnesses: 1, Stubs: map[string]string{}, Merge: map[string]bool{}, Sched: 0, Opts: map[string]string{}, Tier: "both"}
 	fd, ok := fn.Syntax().(*ast.FuncDecl)
 	if !ok || fd.Doc == nil {
 		return cfg
